@@ -388,8 +388,8 @@ def _ad():
 
 
 COMPONENTS = [
-    Component("optimiser_tables", check_optimiser, strategy=st_opt, quick=3000, thorough=80000, rule="1..9 rows, values with ties, q = 1..rows+2"),
-    Component("decoupled_optimiser_tables", check_decoupled_optimiser, strategy=st_dec_opt, quick=2000, thorough=60000,
+    Component("optimiser_tables", check_optimiser, strategy=st_opt, quick=3000, thorough=80000, fuzz_runs=1500, rule="1..9 rows, values with ties, q = 1..rows+2"),
+    Component("decoupled_optimiser_tables", check_decoupled_optimiser, strategy=st_dec_opt, quick=2000, thorough=60000, fuzz_runs=1500,
               rule="m = 2..3 objectives x 1..6 rows, optional costs, q = 1..rows*m+2, saved evaluation index None or int"),
     Component("run_evaluations", check_run, strategy=st_spec, quick=220, thorough=8000, rule="every evaluation of runs of the eight dataset algorithms (<= 40 steps), batch 1..K+3"),
     Component("run_evaluations_vogp_ad", check_run, strategy=_ad, quick=16, thorough=400, rule="VOGP_AD: the evaluated or refined node is the max-diagonal active node"),
